@@ -4,6 +4,7 @@ generated online from a seed (so that they follow what the scheduler actually di
 returns the op list together with per-op observations. The model replays the op list."""
 from __future__ import annotations
 
+import zlib
 import json
 import random
 import re
@@ -393,11 +394,21 @@ def groupmark_obs(job):
     for lg, nodeid, m in job["cases"]:
         mark = None
         if m:
-            mark = types.SimpleNamespace(args=tuple(m[0]), kwargs=({"name": m[1][0]} if m[1] else {}))
-        item = types.SimpleNamespace(nodeid=nodeid, _nodeid=nodeid, get_closest_marker=lambda name, mark=mark: mark if name == "xdist_group" else None)
+            mark = types.SimpleNamespace(name="xdist_group", args=tuple(m[0]), kwargs=({"name": m[1][0]} if m[1] else {}))
+        # where the mark sits: on the test function itself, or inherited from its class / module (pytestmark):
+        # only a mark on the function is among the item's OWN markers (decided by the id, so that a case replays)
+        own = bool(mark) and zlib.crc32(nodeid.encode()) % 3 == 0
+        other = types.SimpleNamespace(name="slow", args=(), kwargs={})
+        item = types.SimpleNamespace(nodeid=nodeid, _nodeid=nodeid, own_markers=[other] + ([mark] if own else []),
+                                     get_closest_marker=lambda name, default=None, mark=mark: mark if name == "xdist_group" and mark else default,
+                                     iter_markers=lambda name=None, mark=mark, other=other: iter([x for x in ([mark] if mark else []) + [other]
+                                                                                                  if name is None or x.name == name]))
         cfg = types.SimpleNamespace(getvalue=lambda name, lg=lg: bool(lg) if name == "loadgroup" else None)
-        WorkerInteractor.pytest_collection_modifyitems(types.SimpleNamespace(), cfg, [item])
-        out.append([item._nodeid, LoadGroupScheduling._split_scope(None, item._nodeid)])
+        try:
+            WorkerInteractor.pytest_collection_modifyitems(types.SimpleNamespace(), cfg, [item])
+            out.append([item._nodeid, LoadGroupScheduling._split_scope(None, item._nodeid)])
+        except Exception as e:  # noqa: BLE001
+            out.append(["exc", type(e).__name__])
     return out
 
 
